@@ -25,6 +25,9 @@ package manifest
 //@ func (*{oci1Manifest,oci1Index,oci1Artifact,docker2Manifest,docker2ManifestList,docker1Manifest}).{SetAnnotation,SetConfig,SetLayers,SetManifestList,SetSubject,SetOrig}
 //@   prop C02
 //@   let algo = m.desc.DigestAlgo()
+//   the descriptor equation is an invariant of every non-signed manifest (established by the
+//   constructors below, re-established by every setter): a setter may rely on it at entry
+//@   entry-assume m.manifSet && len(m.rawBody) > 0 ==> m.desc.Digest == $fromBytes(algo, $str(m.rawBody)) && m.desc.Size == len(m.rawBody)
 //@   ensures raw-is-serialisation: result == nil ==> $str(m.rawBody) == $json(m.GetOrig()) && len(m.rawBody) > 0
 //@   ensures digest-of-raw: result == nil ==> m.desc.Digest == $fromBytes(algo, $str(m.rawBody))
 //@   ensures size-of-raw: result == nil ==> m.desc.Size == len(m.rawBody)
